@@ -17,7 +17,7 @@ META = {
                          "tell_system_pubsub_msg = recorder)"],
     "bounds": "3 modules (subscriber S, X, third module as second subscriber / second actor / driver), <= 2 system topics "
               "per subscriber, scripts of <= 5 transitions (quick: listed skeletons; thorough: every valid sequence of "
-              "<= 3 transitions of X out of {start, pause, resume, stop, poison pill, deregister} with S RUNNING or S "
+              "<= 4 transitions of X out of {start, pause, resume, stop, poison pill, deregister} with S RUNNING or S "
               "PAUSED meanwhile), <= 2 loop runs, <= 2 timer expiries; blocking mode: transitions performed from a "
               "handler, one per loop round",
     "outside": "regular-expression subscriptions to system topics (C02 covers the matching path), bound modules, more "
@@ -143,7 +143,7 @@ def jobs(tier):
         for name, script, sym, blk in THOROUGH_EXTRA:
             js.append(_job(name, script, sym, blk))
         seen = set()
-        for seq in _seqs(3):
+        for seq in _seqs(4):
             if len(seq) < 2:
                 continue
             key = " ".join(seq)
@@ -171,7 +171,7 @@ MANIFEST = {
             "count(topic, sender) between demanded and performed (equal wherever the text is unambiguous); tick timer "
             "armed with exactly the configured (symbolic) period, one tick per expiry. Plus the one-step L1 unit "
             "of C01 as emission table from any state/flags.",
-    "note": "call order per job is concrete (enumerated skeletons; thorough: every sequence of <= 3 transitions of X x "
+    "note": "call order per job is concrete (enumerated skeletons; thorough: every sequence of <= 4 transitions of X x "
             "subscriber RUNNING / PAUSED), free per job: errno left by callbacks, quit code, non-allocating flag bits "
             "of X, tick period; not asserted because the text leaves it open: own transitions, refused start, "
             "stop/deregistration of a module that is not RUNNING, subscriber IDLE at loop start; regular-expression "
